@@ -1,7 +1,7 @@
 (* Aoef/Final.v — the statements of C01 / C02 with boolean, checkable side conditions. *)
 From Coq Require Import ZArith List Bool Arith Lia.
 From SE Require Import Aoef.Model Aoef.Schema Aoef.Typing Aoef.SaveProofs Aoef.RootProofs Aoef.DocProofs Aoef.LoadProofs
-  Aoef.AuditProofs Aoef.Pinned.
+  Aoef.AuditProofs Aoef.Pinned Aoef.Dispatch.
 Import ListNotations.
 
 Lemma wfb_parts sch rt U : wfb sch rt U = true -> ncls U = rcls rt /\ typed sch U /\ consistent U.
@@ -71,6 +71,29 @@ Lemma wf_examples :
   wfb current root_AnnotationSet w_annotation_set = true /\ wfb current root_PredictionSet w_prediction_set = true /\
   wfb current root_EvaluationSet w_evaluation_set = true /\ wfb current root_RecordingSet w_recording_set = true.
 Proof. vm_compute. auto. Qed.
+
+(* which adapter serialises / re-reads a collection: the extracted ADAPTERS order is most-specific-first *)
+Lemma dispatch_current : forallb (specific_first collection_parent 3 adapters_order) (map rcls roots) = true.
+Proof. vm_compute. reflexivity. Qed.
+
+Lemma dispatch_current_own rt : In rt roots -> save_dispatch collection_parent 3 adapters_order (rcls rt) = Some (rcls rt).
+Proof.
+  intros H. apply dispatch_own_class. pose proof dispatch_current as A. rewrite forallb_forall in A.
+  apply A. now apply in_map.
+Qed.
+
+Lemma load_dispatch_current rt : In rt roots -> load_dispatch adapters_order (rcls rt) = Some (rcls rt).
+Proof.
+  intros H. apply load_dispatch_exact.
+  assert (A : forallb (fun r => existsb (Nat.eqb (rcls r)) adapters_order) roots = true) by (vm_compute; reflexivity).
+  rewrite forallb_forall in A. specialize (A rt H). apply existsb_exists in A. destruct A as [x [Hx E]].
+  apply Nat.eqb_eq in E. now subst x.
+Qed.
+
+(* a base-first table stores a subclass as its base: the ordering is what the property rests on *)
+Lemma dispatch_base_first_refuted :
+  save_dispatch collection_parent 3 [cRecordingSet; cDataset] cDataset = Some cRecordingSet.
+Proof. vm_compute. reflexivity. Qed.
 
 (* ------------------------------------------------------------------ C02 *)
 Lemma ids_unique_b sch rt U c : NoDup (map fkey (get_table c (fst (save_root sch rt U)))).
